@@ -600,6 +600,15 @@ pub fn gen_c11(rng: &Rng, tier: Tier) -> C11Scn {
             } else {
                 gen_head(rng, 14, true)
             };
+            let mut head = head;
+            if !head.is_empty() && rng.chance(1, 6) {
+                // other white space than the blank inside the header (tab-separated tags are common):
+                // only the first blank separates id and description
+                let at = rng.below(head.len() as u64) as usize;
+                if head[at] != b'\r' {
+                    head[at] = *rng.pick(b"\t\t\t\x0c\x0b");
+                }
+            }
             recs.push(QRec { head, seq, qual, entry: if big { rng.below(2) as u8 * rng.below(2) as u8 + rng.below(2) as u8 } else { rng.below(4) as u8 } });
         }
         let total: usize = recs.iter().map(|r| r.head.len() + 2 * r.seq.len() + 6).sum();
@@ -683,9 +692,20 @@ pub fn run_c11(s: &C11Scn, st: &mut Stats) -> RunResult {
         }
         if v.is_empty() {
             let n = recs.len();
-            let rs = ReadScn { fmt: Fmt::Fastq, input: all.clone(), cfgs: vec![cfg.clone()], ops: ops_next_to_end(n), mon: Monitors::default(), profile: String::new() };
+            // (the id / description accessors of the records parsed back are part of "parses back to
+            // exactly those fields": what write_parts got as id and description is the header split
+            // at its first blank)
+            let mon = Monitors { views: true, iters: false, serde: false, unchanged: false, iter_seed: 0 };
+            let rs = ReadScn { fmt: Fmt::Fastq, input: all.clone(), cfgs: vec![cfg.clone()], ops: ops_next_to_end(n), mon, profile: String::new() };
             let log = drive(&rs, cfg, &vec![]);
             let _ = record_stats(&rs, cfg, &log, st);
+            for step in &log.steps {
+                for (rule, d) in &step.mon {
+                    if (rule.starts_with("C13.id") || rule.starts_with("C13.desc")) && v.len() < 2 {
+                        v.push(Violation::new("C11.header_parts", format!("a record parsed back from the written text: {}", d)));
+                    }
+                }
+            }
             let got: Vec<&RecObs> = log.steps.iter().filter_map(|x| if let Out::Rec(r) = &x.out { Some(r) } else { None }).collect();
             let bad = log.steps.iter().find(|x| matches!(x.out, Out::Err(_, _) | Out::Panic(_) | Out::Hang(_)));
             if let Some(b) = bad {
